@@ -3,7 +3,7 @@ import copy
 
 import networkx as nx
 
-from .gen import decode_node
+from .gen import decode_node, fresh
 from .model import Ref
 
 ADD_OPS = ('add', 'add_from', 'path', 'star', 'cycle', 'tpath')
@@ -171,7 +171,10 @@ class Driver:
 
     def __init__(self, case):
         self.case = case
-        self.nodes = [decode_node(x) for x in case['nodes']]
+        # the graph is fed with one set of node objects, the model (and therefore every query the oracles
+        # derive from it) with equal but distinct ones
+        self.anodes = [decode_node(x) for x in case['nodes']]
+        self.nodes = [fresh(n) for n in self.anodes]
         self.directed = case['cls'] == 'DynDiGraph'
         self.removal = case.get('removal', True)
         self.G = new_graph(case['cls'], self.removal)
@@ -235,7 +238,7 @@ class Driver:
             u, v, t, e = elements(op, nodes)[0]
             expected = predicted(self.M, u, v, t, e)
             self.classify(u, v, t, e, expected)
-            ex = call_real(self.G, nodes, op)
+            ex = call_real(self.G, self.anodes, op)
             actual = exc_kind(ex)
             applied, news = 0, []
             if actual in ('ok', 'ValueError') and self.M.expected_outcome(u, v, t, e) == 'either':
@@ -246,7 +249,7 @@ class Driver:
                 applied = 1
         else:
             expected, applied, news = apply_model(self.M, nodes, op, self.classify)
-            ex = call_real(self.G, nodes, op)
+            ex = call_real(self.G, self.anodes, op)
             actual = exc_kind(ex)
             if not self.removal and op[0] in ADD_OPS and actual != expected:
                 self.desync = True
